@@ -133,6 +133,9 @@ Definition render_tc_pre (st : bool) (r : pre_lay) : text :=
   ++ flat_map (render_pre_row st) (pr_rows r) ++ sty st pre0_foot pre1_foot.
 
 Definition opt_dval (o : option text) : Qc := match o with Some t => dval t | None => 0%Qc end.
+(* commission + fee as the code adds them: rust_decimal addition (exact whenever the exact sum has at most
+   28 significant digits; the round-trip classes require the addition not to overflow) *)
+Definition dec_sum (a b : Qc) : Qc := match a_add dec a b with Ok v => v | _ => 0%Qc end.
 Definition sell_or_buy (t : text) : action5 :=
   match action_of t with Ok a => a | _ => XSell end.
 Fixpoint pre_records (acct : text) (row : nat) (l : list pre_row_lay) : list ttrade :=
@@ -142,7 +145,7 @@ Fixpoint pre_records (acct : text) (row : nat) (l : list pre_row_lay) : list ttr
       {| tt_sec := pl_sym t; tt_td := date_ord_short (pl_td t); tt_sd := date_ord_short (pl_sd t);
          tt_td_text := date_text 47 (pl_td t); tt_sd_text := date_text 47 (pl_sd t);
          tt_act := sell_or_buy (pl_act t); tt_price := dval (pl_price t); tt_shares := dval (pl_qty t);
-         tt_comm := (opt_dval (pl_comm t) + opt_dval (pl_fee t))%Qc; tt_row := row; tt_acct := acct |}
+         tt_comm := dec_sum (opt_dval (pl_comm t)) (opt_dval (pl_fee t)); tt_row := row; tt_acct := acct |}
       :: pre_records acct (S row) r
   end.
 
@@ -162,4 +165,4 @@ Definition post_record (r : post_lay) : ttrade :=
   {| tt_sec := po_sym r; tt_td := date_ord (po_td r); tt_sd := date_ord (po_sd r);
      tt_td_text := date_text 47 (po_td r); tt_sd_text := date_text 47 (po_sd r);
      tt_act := sell_or_buy (po_type r); tt_price := dval (po_price r); tt_shares := dval (po_qty r);
-     tt_comm := (opt_dval (po_comm r) + opt_dval (po_fee r))%Qc; tt_row := 1; tt_acct := po_acct r |}.
+     tt_comm := dec_sum (opt_dval (po_comm r)) (opt_dval (po_fee r)); tt_row := 1; tt_acct := po_acct r |}.
